@@ -269,6 +269,20 @@ impl RenetServer {
         }
     }
 
+    /// Read-only view of a connection, for the verification harness.
+    #[cfg(renet_verif)]
+    pub fn verif_connection(&self, client_id: ClientId) -> Option<&RenetClient> {
+        self.connections.get(&client_id)
+    }
+
+    /// Ids of every connection held by the server, whatever its status, sorted.
+    #[cfg(renet_verif)]
+    pub fn verif_connection_ids(&self) -> Vec<ClientId> {
+        let mut ids: Vec<ClientId> = self.connections.keys().copied().collect();
+        ids.sort_unstable();
+        ids
+    }
+
     /// Creates a local [RenetClient], use this for testing.
     /// Use [`Self::process_local_client`] to update the local connection.
     pub fn new_local_client(&mut self, client_id: ClientId) -> RenetClient {
